@@ -12,6 +12,12 @@ import itertools
 TYPED = ("bit", "bool", "bv", "u", "s", "Int")
 VEC = ("bv", "u", "s")
 
+# forms the statement names explicitly ("compile-time errors in every assignment form (<<=, @=, ^=, .next/.value/
+# .push, slices and elements)"); for the others (initialisation, port connection, merges) the first sentence applies:
+# rejected or value preserved
+EXPLICIT_FORMS = ("ilshift", "ilshift_conc", "imatmul", "ixor", "next", "value", "push", "slice_bv", "slice_u",
+                  "slice_s", "elem_vec", "elem_arr")
+
 FORMS = ["ilshift", "ilshift_conc", "imatmul", "ixor", "next", "value", "push", "slice_bv", "slice_u", "slice_s",
          "elem_vec", "elem_arr", "init_signal", "init_variable", "port_in", "port_out", "ret_merge", "ifexp_merge"]
 SEQ_ONLY_QUAL = ("variable",)
@@ -39,7 +45,7 @@ def classify(S, T):
         if sk in ("bit", "bool"):
             return "accept"
         if sk == "lit":
-            return "accept" if S[1] in (0, 1) else "reject"
+            return "accept" if S[1] in (0, 1) else "unspec"  # truth value of other ints: not classified
         if sk == "str":
             return "accept" if S[1] in ("0", "1") else "unspec"
         return "unspec"
@@ -137,7 +143,7 @@ def sources(W, n):
     for v in sorted(lits):
         out.append(["lit", v])
     out += [["Null"], ["Full"]]
-    pat = "10110100"
+    pat = "10110100" * 3
     for l in sorted({w, w + 1, max(1, w - 1)}):
         out.append(["str", pat[:l]])
     return out
